@@ -225,6 +225,12 @@ def spell(rng, groups) -> str:
     """The string handed to the library for a list of groups [prefix, [[count, code], ...]]."""
     out = []
     for p, items in groups:
+        if len(items) == 1 and 2 <= items[0][0] <= 16 and rng.random() < 0.2:
+            out.append(f'{items[0][0]}*{p}{items[0][1]}')          # '3*>h': the token multiplier applied to a struct token
+            continue
+        if rng.random() < 0.05 and all(k >= 1 for k, _ in items):
+            out.append('1*' + p + ''.join((f'{k}{c}' if k != 1 else c) for k, c in items))
+            continue
         s = p
         for k, c in items:
             if k == 1 and rng.random() < 0.8:
